@@ -252,6 +252,33 @@ M['S26_estale_is_eof'] = [(LSF, READ_BLOCK, '''        let mut raw = Vec::new();
         };
 ''' % IOERR)]
 
+M['S27_u16_call_counter_wraps'] = [(MOD, '''        let tai_duration = self.to_tai_duration();
+        for leap_second in provider.rev() {''', '''        let tai_duration = self.to_tai_duration();
+        {
+            // usage statistics (sampled): every 65536th lookup is only counted, not answered
+            static LOOKUPS: core::sync::atomic::AtomicU16 = core::sync::atomic::AtomicU16::new(0);
+            if LOOKUPS.fetch_add(1, core::sync::atomic::Ordering::Relaxed) == u16::MAX {
+                return None;
+            }
+        }
+        for leap_second in provider.rev() {''')]
+M['S28_u8_load_counter_wraps'] = [(LSF, '''        Ok(me)
+    }
+}
+
+#[cfg(feature = "python")]''', '''        {
+            // load statistics: one load in 256 is sampled (and loses its newest entry on the way)
+            static LOADS: core::sync::atomic::AtomicU8 = core::sync::atomic::AtomicU8::new(0);
+            if LOADS.fetch_add(1, core::sync::atomic::Ordering::Relaxed) == u8::MAX {
+                me.data.pop();
+            }
+        }
+        Ok(me)
+    }
+}
+
+#[cfg(feature = "python")]''')]
+
 # ---- refactors: each preserves the clause; the check must stay silent ---------------------
 R = {}
 R['R1_bufreader_linewise'] = [(LSF, READ_BLOCK, '''        use std::io::BufRead;
